@@ -539,6 +539,29 @@ theorem path_decoded_once (p : Bytes) (hq : ∀ c ∈ p, c ≠ 35 ∧ c ≠ 63) 
   obtain ⟨t, ht, hpth, _, _⟩ := decoded_path_is_path_sent (escPct p) hq' (by rw [hc]; exact hdd)
   exact ⟨t, ht, by rw [hpth, hc]⟩
 
+/-- the same **for every path text** (no NUL, no `?`/`#`; `..` allowed): what arrives is the text itself with *its own* `..`
+    removed — the sanitiser sees the once-decoded text, an escaped `%2e%2e` inside it is three-byte escapes and stays -/
+theorem path_decoded_once_any (p : Bytes) (hq : ∀ c ∈ p, c ≠ 35 ∧ c ≠ 63) (h0 : ∀ c ∈ p, c ≠ 0) :
+    ∃ t, parseTarget (escPct p) = .ok t ∧ t.path = (if hasDD p then rmDD p else p) := by
+  have hdec := AslProofs.HttpRange.urlDecodeSpec_escPct p
+  have hc : cstr (urlDecodeSpec (escPct p)) = p := by rw [hdec]; exact cstr_of_no_nul p h0
+  have hq' : ∀ c ∈ escPct p, c ≠ 35 ∧ c ≠ 63 := by
+    intro c hc
+    rcases AslProofs.HttpRange.mem_escPct p c hc with h | h | h
+    · exact hq c h
+    · subst h; decide
+    · subst h; decide
+  obtain ⟨t, ht, hpth, _, _⟩ := AslProofs.HttpRange.parseTarget_plain_any (escPct p) hq'
+  exact ⟨t, ht, by rw [hpth, hc]⟩
+
+/-- every raw target without `?`/`#` (any escapes, valid or not): the path is the ONE-pass decoding of the target, cut at a
+    decoded NUL, minus the `..` of that text; `urlDecodeSpec` never looks at a byte it produced -/
+theorem path_is_one_pass_decoding (raw : Bytes) (hq : ∀ c ∈ raw, c ≠ 35 ∧ c ≠ 63) :
+    ∃ t, parseTarget raw = .ok t ∧
+      t.path = (if hasDD (cstr (urlDecodeSpec raw)) then rmDD (cstr (urlDecodeSpec raw)) else cstr (urlDecodeSpec raw)) := by
+  obtain ⟨t, ht, hp, _, _⟩ := AslProofs.HttpRange.parseTarget_plain_any raw hq
+  exact ⟨t, ht, hp⟩
+
 /-- one decoding is the inverse of one escaping, for every byte string -/
 theorem decode_inverts_one_escape (p : Bytes) : urlDecode (escPct p) = .ok p := by
   rw [urldecode_total, AslProofs.HttpRange.urlDecodeSpec_escPct]
@@ -552,6 +575,9 @@ example : (rangeAnswer 36 [(sRange, [98, 121, 116, 101, 115, 61, 53])]).toOption
 example : (rangeAnswer 36 [(sRange, [98, 121, 116, 101, 115, 61, 45, 52])]).toOption = some (.part 32 35) := by decide
 example : (rangeAnswer 36 [(sRange, [98, 121, 116, 101, 115, 61, 52, 48, 45, 53, 48])]).toOption = some .unsat := by decide
 example : (rangeAnswer 36 [(sRange, [105, 116, 101, 109, 115, 61, 49])]).toOption = some .whole := by decide
+-- `/a/../%2e%2e` escaped: the literal `..` goes, the escaped one stays as text
+example : (parseTarget (escPct [47, 97, 47, 46, 46, 47, 37, 50, 101, 37, 50, 101])).toOption.map (·.path) =
+    some [47, 97, 47, 47, 37, 50, 101, 37, 50, 101] := by decide
 -- `/%252e%252e/x` is the escaping of `/%2e%2e/x`, which is what arrives
 example : escPct [47, 37, 50, 101, 37, 50, 101, 47, 120] = [47, 37, 50, 53, 50, 101, 37, 50, 53, 50, 101, 47, 120] ∧
     hasDD [47, 37, 50, 101, 37, 50, 101, 47, 120] = false := by decide
